@@ -38,7 +38,7 @@ func runC08(c *Ctx) {
 	// names
 	var lockOpen *ssa.Call
 	for _, cs := range callsIn(fn, "os.OpenFile") {
-		if strings.HasSuffix(describe(argsOf(cs)[0]), ` + ".lock")`) {
+		if strings.HasSuffix(describeArg(cs, 0), ` + ".lock")`) {
 			lockOpen = cs.(*ssa.Call)
 		}
 	}
@@ -71,14 +71,14 @@ func runC08(c *Ctx) {
 		if !ok {
 			continue
 		}
-		if calleeName(&d.Call) == "os.Remove" && describe(argsOf(d)[0]) == ld {
+		if calleeName(&d.Call) == "os.Remove" && describeArg(d, 0) == ld {
 			dfr = d
 			continue
 		}
 		// `defer unlock()` where unlock is, on this path, a function literal that removes the lock
 		if mc, ok := strip(refine(d.Call.Value, factsAt(d))).(*ssa.MakeClosure); ok {
 			for _, cs := range callsIn(mc.Fn.(*ssa.Function), "os.Remove") {
-				if describe(argsOf(cs)[0]) == ld {
+				if describeArg(cs, 0) == ld {
 					dfr = d
 				}
 			}
@@ -107,7 +107,7 @@ func runC08(c *Ctx) {
 	// marker re-check under the lock
 	var stat *ssa.Call
 	for _, cs := range callsIn(fn, "os.Stat") {
-		if describe(argsOf(cs)[0]) == nd {
+		if describeArg(cs, 0) == nd {
 			stat = cs.(*ssa.Call)
 		}
 	}
@@ -137,7 +137,7 @@ func runC08(c *Ctx) {
 				return "markerStatErr", true
 			}
 		}
-		if c, ok := v.(*ssa.Call); ok && calleeName(&c.Call) == "os.WriteFile" && describe(argsOf(c)[0]) == nd {
+		if c, ok := v.(*ssa.Call); ok && calleeName(&c.Call) == "os.WriteFile" && describeArg(c, 0) == nd {
 			return "writeErr", true
 		}
 		return "", false
@@ -187,7 +187,7 @@ func runC08(c *Ctx) {
 	}
 	r.Check("C08.disposal", "uploadReportContents/marker write exists", m.Pos(fn.Pos()), nWrite == 1, fmt.Sprintf("%d marker writes", nWrite))
 	// the posted bytes are the buf parameter (shared with C01.body)
-	r.Check("C08.same-bytes", "uploadReportContents/posted body is buf", m.Pos(post.Pos()), describe(argsOf(post)[2]) == "bytes.NewReader(param:buf)", "got "+describe(argsOf(post)[2]))
+	r.Check("C08.same-bytes", "uploadReportContents/posted body is buf", m.Pos(post.Pos()), describeArg(post, 2) == "bytes.NewReader(param:buf)", "got "+describeArg(post, 2))
 	// true result only after the marker path
 	for _, b := range fn.Blocks {
 		ret, ok := b.Instrs[len(b.Instrs)-1].(*ssa.Return)
@@ -274,7 +274,7 @@ func c08Publish(c *Ctx, m *Module) {
 		}
 	}
 	for _, cs := range m.callersOf(ew) {
-		name := describe(argsOf(cs)[0])
+		name := describeArg(cs, 0)
 		discoverable := !strings.Contains(name, `"local."`) && strings.Contains(name, `".json"`) && strings.Contains(name, "LocalDir(")
 		key := "exclusiveWrite@" + short(cs.Parent().Name()) + ":"
 		if discoverable {
